@@ -202,8 +202,8 @@ def emit_tu(sj, header='<hfsm2/machine.hpp>', main='vh_main.hpp', extra_defs='')
     region_of = [n['region'] for n in nodes]
     kind = [{'L': 0, 'C': 1, 'O': 2}[n['kind']] for n in nodes]
     strat = [STRAT_ID[n['strategy']] if n['strategy'] else -1 for n in nodes]
-    cfgchain = 'hfsm2::Config::ContextT<vh::Probe&>'
-    cfgchain += '\n#ifdef HFSM2_ENABLE_UTILITY_THEORY\n  ::RandomT<vh::ScriptedRng>\n#endif\n'
+    cfgchain = 'hfsm2::Config::ContextT<vh::Probe&>\n'
+    if not cfg.get('builtin_rng'): cfgchain += '\n#ifdef HFSM2_ENABLE_UTILITY_THEORY\n  ::RandomT<vh::ScriptedRng>\n#endif\n'
     if cfg.get('manual'): cfgchain += '  ::ManualActivation\n'
     if cfg.get('bottomup'): cfgchain += '  ::BottomUpReactions\n'
     if cfg.get('subst', 4) != 4: cfgchain += '  ::SubstitutionLimitN<%d>\n' % cfg['subst']
@@ -233,6 +233,7 @@ def emit_tu(sj, header='<hfsm2/machine.hpp>', main='vh_main.hpp', extra_defs='')
 #endif
 #define VH_SUBST_LIMIT {cfg.get('subst', 4)}
 #define VH_MANUAL {1 if cfg.get('manual') else 0}
+{'#define VH_BUILTIN_RNG 1' if cfg.get('builtin_rng') else ''}
 #include "vh.hpp"
 {arr('VH_PARENT', [n['parent'] for n in nodes])}
 {arr('VH_PRONG', [n['prong'] for n in nodes])}
